@@ -131,7 +131,20 @@ def relperm_params(draw, swc_min=0.0):
 
 def ref_densities(draw):
     lg = st.floats(-4.0, 2.0).map(lambda u: 10.0**u)
-    return {"rho_o0": draw(lg), "rho_g0": draw(lg), "rho_w0": draw(lg)}
+    rho = {"rho_o0": draw(lg), "rho_g0": draw(lg), "rho_w0": draw(lg)}
+    # a component left out of the mass balance (reference density exactly 0, int or float) is an ordinary value of the
+    # documented sums: water most often (oil-gas systems), sometimes one of the hydrocarbon components - never all
+    k = draw(st.integers(0, 11))
+    zero = draw(st.sampled_from([0.0, 0]))
+    if k in (0, 1):
+        rho["rho_w0"] = zero
+    elif k == 2:
+        rho["rho_o0"] = zero
+    elif k == 3:
+        rho["rho_g0"] = zero
+    elif k == 4:
+        rho["rho_w0"] = 1  # whole numbers given as ints, as in the repository's own test
+    return rho
 
 
 # --------------------------------------------------------------------------------------------------
